@@ -8,6 +8,7 @@ import (
 	"crypto/rsa"
 	"fmt"
 	"io"
+	"math/big"
 	"sync"
 	"sync/atomic"
 
@@ -79,6 +80,19 @@ func NewShared(kind string, n int) (*Shared, error) {
 	case "ssh-rsa":
 		rsaOnce.Do(func() { rsaKey, _ = rsa.GenerateKey(rand.Reader, 2048) })
 		i, err := agessh.NewRSAIdentity(rsaKey)
+		if err != nil {
+			return nil, err
+		}
+		s.Identity, s.Recipient = i, i.Recipient()
+	case "ssh-rsa-from-components":
+		// a key value assembled from its numbers (what a caller holding a key in another form hands to NewRSAIdentity):
+		// no precomputed values, and never used for a private-key operation before the goroutines start
+		rsaOnce.Do(func() { rsaKey, _ = rsa.GenerateKey(rand.Reader, 2048) })
+		k := &rsa.PrivateKey{PublicKey: rsa.PublicKey{N: new(big.Int).Set(rsaKey.N), E: rsaKey.E}, D: new(big.Int).Set(rsaKey.D)}
+		for _, p := range rsaKey.Primes {
+			k.Primes = append(k.Primes, new(big.Int).Set(p))
+		}
+		i, err := agessh.NewRSAIdentity(k)
 		if err != nil {
 			return nil, err
 		}
